@@ -152,7 +152,7 @@ PROPS['C12'] = dict(
         K('poulpy-cpu-ref', 'hal_defaults::scratch::verif_kani', ['c12_take_slice_aligned_contract', 'c12_take_slice_aligned_panics_iff_too_small',
           'c12_take_slice_default_u8', 'c12_take_slice_default_i64', 'c12_take_slice_default_f64', 'c12_take_slice_default_i128'], cls='complete', timeout=600,
           functions=['hal_defaults::scratch::take_slice_aligned', 'HalScratchDefaults::take_slice_default', 'HalScratchDefaults::scratch_available_default', 'HalScratchDefaults::scratch_from_bytes_default']),
-        V('vec_znx_ring'), V('vec_znx_normalize'), V('hal_glue'), V('hal_delegates'), V('vmp_fft64'), V('glwe_ops'), V('core_keyswitch'), V('core_extprod'), V('core_decrypt'),
+        V('vec_znx_ring'), V('vec_znx_normalize'), V('hal_glue'), V('hal_delegates'), V('vmp_fft64'), V('glwe_ops'), V('core_keyswitch'), V('core_extprod'), V('core_mul'), V('core_decrypt'),
         K('poulpy-cpu-ref', 'verif_kani::c12_window', [f'c12_window_{op}__n4' for op in ('normalize_assign', 'rotate_assign', 'automorphism_assign', 'mul_xp_minus_one_assign', 'lsh_assign', 'rsh_assign')],
           cls='bounded', timeout=1200, bound='N=4 (limb byte size 32: not a multiple of the 64-byte alignment), size 2',
           functions=['HAL traits VecZnx{Normalize,Rotate,Automorphism,MulXpMinusOne,Lsh,Rsh}Assign with a scratch of exactly the companion *_tmp_bytes; two runs with different scratch contents']),
@@ -343,7 +343,7 @@ PROPS['C10'] = dict(
     level='other',
     technique='Kani equivalence check: the real AVX2 kernel and the real reference kernel run on the same symbolic inputs and must produce bit-identical outputs',
     level_text='Bounded in length (3, 5, 9 elements = SIMD body + every tail shape; ring switches 4..16), complete in element values (inside the no-overflow domain of the reference) and in lsh; radix constant per harness: add/sub/negate families, multiplication by powers of two (k in -62..20), ring switching and digit extraction (quick tier); the 13 normalisation step kernels (thorough tier).',
-    level_note='The AVX module is mounted under cfg(kani) because the enable-avx feature cannot be built by cargo-kani; seven intrinsics are replaced by lane-wise models (trusted). znx_automorphism_avx, the FFT/NTT AVX kernels, and scheme-level pipelines are not covered.',
+    level_note='The AVX module is mounted under cfg(kani) because the enable-avx feature cannot be built by cargo-kani; nine intrinsics are replaced by lane-wise models (trusted). The by-constant convolution kernels run on windows of larger buffers (they form, without dereferencing, a pointer one block outside the operand after the last term). znx_automorphism_avx, the FFT/NTT AVX kernels, and scheme-level pipelines are not covered.',
     explanation=BOUNDED_EXPL,
     units=[K('poulpy-cpu-avx', 'verif_kani', ['c10_add_family__len5', 'c10_add_family__len9', 'c10_add_family__len3', 'c10_mul_pow2__len5', 'c10_switch_ring__8_to_8',
              'c10_switch_ring__16_to_8', 'c10_switch_ring__8_to_16', 'c10_switch_ring__4_to_16', 'c10_digit__b17_len5'], cls='bounded', timeout=900,
@@ -352,8 +352,14 @@ PROPS['C10'] = dict(
                         'znx_mul_power_of_two_avx', 'znx_mul_power_of_two_assign_avx', 'znx_mul_add_power_of_two_avx', 'znx_switch_ring_avx',
                         'znx_extract_digit_addmul_avx', 'znx_normalize_digit_avx', 'znx_normalize_{first,middle,final}_step*_avx (13 kernels)']),
            K('poulpy-cpu-avx', 'verif_kani', [f'c10_norm_{g}__b{b}_len5' for b in (17, 1, 52, 62) for g in ('first', 'middle', 'final')] + ['c10_digit__b52_len5'],
-             cls='bounded', tier='thorough', timeout=2400, bound='slice length 5, radices 17, 1, 52, 62 (the 13 normalisation step kernels: 10-25 min per harness)')],
-    trusted_base=[FMT_STUB, AVX_STUBS],
+             cls='bounded', tier='thorough', timeout=2400, bound='slice length 5, radices 17, 1, 52, 62 (the 13 normalisation step kernels: 10-25 min per harness)'),
+           K('poulpy-cpu-avx', 'verif_kani', ['c10_cnv_const_1coeff__a1_b3', 'c10_cnv_blk_moves'], cls='bounded', timeout=1500,
+             bound='by-constant convolution: a_size 1, b_size 3, every output limb index 0..=a+b, values in the documented i32 domain; block moves: n=16, 2 rows x 2 columns, every block / column',
+             functions=['i64_convolution_by_const_1coeff_avx', 'i64_extract_1blk_contiguous_avx', 'i64_save_1blk_contiguous_avx (poulpy-cpu-avx/src/fft64/convolution.rs) vs their reference twins']),
+           K('poulpy-cpu-avx', 'verif_kani', ['c10_cnv_const_1coeff__a2_b2', 'c10_cnv_const_1coeff__a3_b1', 'c10_cnv_const_2coeffs__a2_b2', 'c10_cnv_const_2coeffs__a1_b3'], cls='bounded', tier='thorough', timeout=2400,
+             bound='(a_size, b_size) in {(2,2), (3,1), (1,3)}, every output limb index, i32 domain (5-17 min per harness)',
+             functions=['i64_convolution_by_const_1coeff_avx', 'i64_convolution_by_real_const_2coeffs_avx vs i64_convolution_by_const_{1coeff,2coeffs}_ref'])],
+    trusted_base=[FMT_STUB, AVX_STUBS + '; plus _mm256_mul_epi32 (signed product of the low 32 bits of each 64-bit lane) and _mm256_set1_epi32'],
     assumptions=['comparison domain: inputs for which the reference kernel does not overflow in the debug profile (|a| <= 2^61 / 2^62)'],
     remainder='znx_automorphism_avx, FFT/IFFT/NTT and mat-vec AVX kernels (FMA, shuffles), FFT64 vs NTT120 families, ciphertext-level bit identity, sampling stream consumption (shared backend-independent code)',
 )
